@@ -413,12 +413,24 @@ func constReturn(fn *ssa.Function) (constant.Value, bool) {
 }
 
 func (e *E2) assertObl(f *FA, x *ssa.TypeAssert) {
-	iface, ok := x.X.Type().Underlying().(*types.Interface)
-	if !ok {
+	if _, ok := x.X.Type().Underlying().(*types.Interface); !ok {
 		e.undecided(f, x, "assert.type", "asserted type", "operand is not an interface")
 		return
 	}
-	// find dominating edges "x.Tag() == K"
+	if ok, why := e.C.assertImplied(f, x); ok {
+		e.discharged(f, x, "assert.type", "asserted type", why, true)
+		return
+	}
+	e.violated(f, x, "assert.type", "asserted type", "no dominating tag test implies "+typeKey(x.AssertedType))
+}
+
+// assertImplied: the type assertion x is dominated by a tag test x.Tag() == K where, over the closed world
+// of implementers, only the asserted type returns K.
+func (c *Ctx) assertImplied(f *FA, x *ssa.TypeAssert) (bool, string) {
+	iface, ok := x.X.Type().Underlying().(*types.Interface)
+	if !ok {
+		return false, ""
+	}
 	for b := x.Block(); b != nil; b = b.Idom() {
 		if len(b.Preds) != 1 {
 			continue
@@ -451,7 +463,7 @@ func (e *E2) assertObl(f *FA, x *ssa.TypeAssert) {
 		if !f.sameValue(cl.Call.Value, x.X) {
 			continue
 		}
-		tab, ok := e.C.tagTable(iface, cl.Call.Method.Name())
+		tab, ok := c.tagTable(iface, cl.Call.Method.Name())
 		if !ok {
 			continue
 		}
@@ -460,11 +472,10 @@ func (e *E2) assertObl(f *FA, x *ssa.TypeAssert) {
 			continue
 		}
 		if types.Identical(T, x.AssertedType) {
-			e.discharged(f, x, "assert.type", "asserted type", fmt.Sprintf("dominated by %s() == %s, which only %s returns (tag table over %d implementers)", cl.Call.Method.Name(), kc.Value.ExactString(), typeKey(T), len(tab)), true)
-			return
+			return true, fmt.Sprintf("dominated by %s() == %s, which only %s returns (tag table over %d implementers)", cl.Call.Method.Name(), kc.Value.ExactString(), typeKey(T), len(tab))
 		}
 	}
-	e.violated(f, x, "assert.type", "asserted type", "no dominating tag test implies "+typeKey(x.AssertedType))
+	return false, ""
 }
 
 // sameValue: a and b denote the same run-time value (same SSA value, or loads of one load class).
